@@ -150,7 +150,9 @@ class EndpointParameterProcessor:
         # Make a copy to modify if necessary
         updated_params = list(current_params)
 
-        for var in url_vars:
+        # url_vars is a set: iterate in order of appearance in the path template, otherwise the order of the added
+        # arguments (and therefore the generated signature) depends on the hash seed
+        for var in sorted(url_vars, key=lambda v: op.path.find("{" + v + "}")):
             sanitized_var_name = NameSanitizer.sanitize_method_name(var)
             if sanitized_var_name not in param_details_map:
                 path_var_param_info = {
